@@ -1,9 +1,14 @@
 """Self test of the numpy reference interpreter against compiled torch circuits.
 
-Run with:  cd /verif && /venv/bin/python -m native.selftest_refinterp [-v]
+Run with:  cd /verif && /venv/bin/python -m native.selftest_refinterp [-v] [--known-ok] [A B ...]
+  -v          print every mismatch           A B ...  run only these sections
+  --known-ok  exit 0 if the only failures match KNOWN_CIRKIT_DEFECTS (defects of cirkit itself,
+              with minimal reproducers in native/cirkit_findings.py)
 
 Sections
   A  generated circuits x semirings x (fold, optimize): eval_compiled == eval_circuit
+     (store read FROM the compiled parameters; for lse-sum a positive store is pushed INTO them;
+     A-tied: one store pushed into all the flag variants; A-b1: a batch of size one)
   B  exotic parameter graphs (every parameter node type) compiled vs eval_parameter
   C  SF.integrate compiled == eval_circuit(integral circuit) == brute-force integral_circuit
   D  SF.multiply == Kronecker product of the operands outputs
@@ -51,6 +56,7 @@ KNOWN_CIRKIT_DEFECTS = [
     ("poly-diff fold=True", "R2 TorchPolynomialDifferential loses 'order' when folded"),
     ("The expanded size of the tensor", "R1 TorchPolynomialLayer._polyval squeezes a batch of size 1"),
     (" poly-b1", "R1 TorchPolynomialLayer._polyval squeezes a batch of size 1"),
+    (" polydiff-fold", "R2 TorchPolynomialDifferential loses 'order' when folded"),
 ]
 
 
@@ -372,6 +378,8 @@ def section_e(rep):
         for order in (1, 2):
             fold, opt = FLAGS[(n + order) % 4]
             what = tag(it["desc"], order=order, fold=fold, optimize=opt)
+            if fold and order > 1:
+                what += " polydiff-fold"  # R2: compile error, or silently the first derivative
 
             def run():
                 dsc = SF.differentiate(sc, order=order)
